@@ -432,6 +432,12 @@ class Gen:
                     if 'history-target' in g.avoid and any(ch.by_id[t].kind == 'history' for t in targets):
                         targets = [rng.choice(proper).id]
                     internal = rng.random() < 0.2
+                    if internal and s.kind == 'state' and s.states() and rng.random() < 0.35 and 'multi-target' not in g.avoid:
+                        # internal transition of a compound state with several targets, only the first of them below the source
+                        below = [q for q in proper if is_descendant(q, s)]
+                        first = rng.choice(below)
+                        more = [q for q in proper if not is_descendant(q, s) and q is not s and not is_descendant(s, q) and legal_target_set(ch, [first.id, q.id])]
+                        if more: targets = [first.id, rng.choice(more).id]
                     content = g.racts('T', proper) if rng.random() < 0.8 else []
                     if guard_inc: content = content + [('assign', 'c', ('add', ('var', 'c'), ('const', 1)))]
                     if not vars_ and (events is None or events[0] != 'e1') and targets:
@@ -493,6 +499,54 @@ class Gen:
                 acts.append(('if', clauses, [('log', g.L(prefix), g.rexpr())] if rng.random() < 0.5 else None))
             else: acts.append(('log', g.L(prefix), g.rexpr()))
         return acts
+
+
+def gen_done_chart(seed, logexpr=None):
+    """Documents about done.state: a parallel whose regions reach their final states in the order the history dictates; regions may hold
+    nested parallels / compounds (active or not when the region finishes) and nested finals."""
+    rng = random.Random(seed)
+    cnt = [0]
+
+    def nid(p):
+        cnt[0] += 1; return '%s%d' % (p, cnt[0])
+    root = St('root', 'scxml')
+    par = St('P', 'parallel', root); root.children.append(par)
+    evs = ['e1', 'e2', 'e3']
+    lab = [0]
+
+    def log(prefix):
+        lab[0] += 1; return [('log', '%s%d' % (prefix, lab[0]), logexpr)]
+
+    def region(parent, depth):
+        r = St(nid('r'), 'state', parent); parent.children.append(r)
+        a = St(nid('a'), 'state', r); r.children.append(a)
+        kind = rng.choice(['none', 'none', 'parallel', 'compound']) if depth < 2 else 'none'
+        nested = None
+        if kind == 'parallel':
+            nested = St(nid('np'), 'parallel', r); r.children.append(nested)
+            for _ in range(2): region(nested, depth + 1)
+            nested.trans.append(Tr(nested, ['done.state.' + nested.id], None, [], False, log('D')))
+        elif kind == 'compound':
+            nested = St(nid('nc'), 'state', r); r.children.append(nested)
+            x = St(nid('x'), 'state', nested); nested.children.append(x)
+            nf = St(nid('nf'), 'final', nested); nested.children.append(nf)
+            x.trans.append(Tr(x, [rng.choice(evs)], None, [nf.id], False, log('T')))
+            nested.trans.append(Tr(nested, ['done.state.' + nested.id], None, [], False, log('D')))
+        f = St(nid('f'), 'final', r); r.children.append(f)
+        a.trans.append(Tr(a, [rng.choice(evs)], None, [f.id], False, log('T')))
+        if nested is not None:
+            if rng.random() < 0.6: a.trans.append(Tr(a, [rng.choice(evs)], None, [nested.id], False, log('T')))
+            nested.trans.append(Tr(nested, [rng.choice(evs)], None, [f.id], False, log('T')))
+        r.onentry.append(log('N')); f.onentry.append(log('N'))
+        r.trans.append(Tr(r, ['done.state.' + r.id], None, [], False, log('D')))
+        return r
+    for _ in range(rng.randint(2, 3)): region(par, 0)
+    ok = St('pass', 'state', root); root.children.append(ok)
+    ok.onentry.append(log('N'))
+    par.trans.append(Tr(par, ['done.state.P'], None, ['pass'], False, log('D')))
+    ch = Chart(root)
+    hist = [rng.choice(evs) for _ in range(rng.randint(3, 7))]
+    return ch, hist
 
 
 def gen_chart(seed, **kw):
